@@ -29,6 +29,7 @@ type c20Item struct {
 	AgeH  float64 `json:"age_h"`
 	Size  int64   `json:"size"`
 	Parts int     `json:"parts_received"`
+	Twin  string  `json:"delivered_twin,omitempty"` // another file with the same content, whose name starts with this name, delivered and logged
 	data  []byte
 	hash  string
 	old   []byte // delivered earlier version (new-version / dup)
@@ -39,6 +40,7 @@ type c20Item struct {
 type c20Scenario struct {
 	Items  []*c20Item `json:"items"`
 	Prune  float64    `json:"prune_min_age_h"`
+	Reboot bool       `json:"receiver_restarted_before_cleaning,omitempty"`
 	Note   string     `json:"note,omitempty"`
 	Before []string   `json:"tree_before,omitempty"`
 	After  []string   `json:"tree_after,omitempty"`
@@ -140,6 +142,14 @@ func c20Run(c *Ctx, idx int, rng *rand.Rand, sc *c20Scenario, dir string) {
 		it.data = randBytes(rng, it.Size)
 		it.hash = md5hex(it.data)
 		sc.Items = append(sc.Items, it)
+		if (it.State == "in-progress" || it.State == "stray-unknown") && rng.Intn(3) == 0 {
+			// a copy of the file under a longer name (f.dat-copy, f.dat.bak) went through
+			// completely: same content, same hash, a log record that starts with this name
+			it.Twin = it.Name + []string{"-copy", ".bak", "2"}[rng.Intn(3)]
+			deliverWhole(&c20Item{Name: it.Twin}, it.data)
+			time.Sleep(3 * time.Second)
+			synctest.Wait()
+		}
 		switch it.State {
 		case "in-progress":
 			it.tiles = tile(it.Size, 2+rng.Intn(4))
@@ -207,6 +217,29 @@ func c20Run(c *Ctx, idx int, rng *rand.Rand, sc *c20Scenario, dir string) {
 		}
 	}
 	synctest.Wait()
+	delivered := map[string]bool{} // name|hash delivered or logged
+	noteDelivered := func() {
+		for _, d := range rs.Disp.Events() {
+			delivered[d.Rel+"|"+d.MD5] = true
+		}
+		for _, l := range rs.Log.Recs() {
+			delivered[l.Name+"|"+l.Hash] = true
+		}
+	}
+	if rng.Intn(3) == 0 {
+		noteDelivered()
+		// the receiver is restarted before the cleaning: its in-memory records are
+		// rebuilt from the log and the staging area
+		sc.Reboot = true
+		for k := range stallFull {
+			delete(stallFull, k)
+		}
+		rs.reboot(false)
+		rs.Stage.Recover()
+		synctest.Wait()
+		time.Sleep(3 * time.Second)
+		synctest.Wait()
+	}
 	// an empty directory or two
 	emptyOld := filepath.Join(rs.StageDir, "empty", "old")
 	emptyNew := filepath.Join(rs.StageDir, "empty2", "new")
@@ -277,13 +310,7 @@ func c20Run(c *Ctx, idx int, rng *rand.Rand, sc *c20Scenario, dir string) {
 			}
 		}
 	}
-	delivered := map[string]bool{} // name|hash delivered or logged
-	for _, d := range rs.Disp.Events() {
-		delivered[d.Rel+"|"+d.MD5] = true
-	}
-	for _, l := range rs.Log.Recs() {
-		delivered[l.Name+"|"+l.Hash] = true
-	}
+	noteDelivered()
 	deliveredName := map[string]bool{}
 	for k := range delivered {
 		deliveredName[strings.SplitN(k, "|", 2)[0]] = true
@@ -321,7 +348,7 @@ func c20Run(c *Ctx, idx int, rng *rand.Rand, sc *c20Scenario, dir string) {
 
 	itemOf := func(rel string) *c20Item {
 		for _, it := range sc.Items {
-			if strings.HasPrefix(rel, it.Name+".") {
+			if strings.HasPrefix(rel, it.Name+".") && !(it.Twin != "" && strings.HasPrefix(rel, it.Twin)) {
 				return it
 			}
 		}
